@@ -365,7 +365,23 @@ def run(ck):
         gsx = prog.resolve_method(ci, 'get_state')
         rsx = prog.resolve_method(ci, '_restore_state')
         ifx = prog.resolve_method(ci, 'init_from_value')
-        ok = gsx is not None and gsx.fid == 'block:SBlock.get_state' and rsx is not None and rsx is ifx
+        def _target(fi_, depth=0):
+            """Follow `def f(self, x): return self.g(x)` to g: a delegating method is the alias
+            `f = g` written out."""
+            if fi_ is None or depth > 3:
+                return fi_
+            body_ = [st for st in fi_.node.body if not (isinstance(st, ast.Expr) and isinstance(st.value, ast.Constant))]
+            if len(body_) == 1 and isinstance(body_[0], (ast.Return, ast.Expr)) and isinstance(body_[0].value, ast.Call):
+                c_ = body_[0].value
+                a_ = fi_.node.args
+                params_ = [x.arg for x in a_.posonlyargs + a_.args][1:]
+                if isinstance(c_.func, ast.Attribute) and norm(c_.func.value) == 'self' and not c_.keywords \
+                        and [norm(x) for x in c_.args] == params_ and not a_.vararg and not a_.kwarg \
+                        and not a_.kwonlyargs:
+                    return _target(prog.resolve_method(ci, c_.func.attr), depth + 1)
+            return fi_
+        ok = gsx is not None and gsx.fid == 'block:SBlock.get_state' and rsx is not None and \
+            _target(rsx) is _target(ifx)
         ck.ob(R5, f"{q} get_state <-> _restore_state", ok,
               "state = output; restored through the same function as init_from_value" if ok else
               f"{ci.name}: get_state={gsx.fid if gsx else None}, _restore_state="
